@@ -610,10 +610,14 @@ def execute(program, ctx, mode):
                 ctx.violation('C16', 'events', 'C16|events|%s|%s' % (name, 'too-many' if len(got) > max(removed, 1 if removed else 0) else 'too-few'),
                               {'c': c, 'got': len(got), 'removed': removed})
         elif name == 'reinit':
-            if any(c in cb[x] for x in range(nC)):
-                continue         # only leaf Components are re-initialised (children keep pointing at the old registries otherwise)
             comp.__init__('C%d' % c, tuple(comps[b] for b in cb[c]))
             M[c] = dict(utils={}, adapters={}, subs=[], handlers=[])
+            # Components that have this one as a base keep pointing at its *old* registries until their bases are assigned
+            # again; the documented clean-up is to do exactly that, with the same tuple
+            for x in range(nC):
+                if c in cb[x]:
+                    comps[x].__bases__ = tuple(comps[b] for b in cb[x])
+                    ctx.probe('bases-reassigned-after-re-initialising-a-base')
             ctx.probe('re-initialised')
             ctx.log(step, 'reinit', c)
             if events:
